@@ -505,7 +505,31 @@ def r5(ctx, rid='C12.R5'):
         raise AnalysisBroken(rid + ': only %d floating point insertions on the decode path (confirmed: >= 4)' % n)
 
 
+def r8(ctx):
+    ctx.rule('C12.R8', 'a decoded raw value depends only on the bytes of its field: NumberDataType::readRawValue gives its '
+             'out-parameter a fresh value before it accumulates bytes into it (|=, +=, <<=) on every path - callers hand the '
+             'same variable to one field after another (the numeric DataFieldSet::read), so what an earlier field left there '
+             'must not survive', minimum=1)
+    fb = ctx.fb
+    fn = fb.fn('ebusd::NumberDataType::readRawValue')
+    ctx.touch(fn)
+    outs = [p for p in fn.params if (p.get('t') or '').rstrip().endswith('*') and 'int' in (p.get('t') or '')]
+    if not outs:
+        raise AnalysisBroken('C12.R8: out-parameter of readRawValue not found')
+    tgt = '*' + outs[-1]['name']
+    plain = set(nid for nid, d, rhs, op, lhs in fn.assignments() if lhs is not None and fn.key(lhs) == tgt and op == '=' and
+                rhs is not None and tgt not in fn.key(rhs))
+    acc = [nid for nid, d, rhs, op, lhs in fn.assignments() if lhs is not None and fn.key(lhs) == tgt and
+           (op not in ('=', 'init') or (rhs is not None and tgt in fn.key(rhs)))]
+    if not acc:
+        raise AnalysisBroken('C12.R8: accumulation into %s not found' % tgt)
+    for a in acc:
+        stale = fn.reaches_point(fn.entry, fn.pos(a), plain)
+        ctx.ob('C12.R8', fn, a, bool(plain) and not stale, 'accumulation into the out-parameter', 'reached only behind a fresh assignment: %s' % (bool(plain) and not stale))
+
+
 def run(ctx):
+    r8(ctx)
     errno_rule(ctx, 'C12.R1')
     r2(ctx)
     r3(ctx)
